@@ -204,6 +204,9 @@ func (u *upstream) MakeRequestToHost(addr string, req *simpleRequest) {
 
 	c, err := u.getClient(addr)
 	if err != nil {
+		// the node cannot be reached: it may have been replaced (failover), so ask
+		// for the current layout instead of waiting for the periodic refresh.
+		u.triggerSlotsRefresh()
 		req.SetResponse(newError(err.Error()))
 		return
 	}
